@@ -484,9 +484,6 @@ func RunLockstep(c *Case, pick func(n int) int, hk *Hooks) *Outcome {
 		}
 	}
 	tr := in.Traces()
-	if rep := RepeatedFlowID(tr); rep != "" {
-		return fail("flow-id-repeat", rep, gs)
-	}
 	sum := Summarize(tr)
 	out.Summary = sum
 	if miss, extra := multisetDiff(m.AllFlows, sum.Flows); len(miss)+len(extra) > 0 {
@@ -497,6 +494,11 @@ func RunLockstep(c *Case, pick func(n int) int, hk *Hooks) *Outcome {
 	}
 	if miss, extra := multisetDiff(m.AllLandmarks, sum.Landmarks); len(miss)+len(extra) > 0 {
 		return fail("landmarks", fmt.Sprintf("sub-process completions: missing %v extra %v", miss, extra), gs)
+	}
+	// (after the flow comparison: a gateway that fires twice - a flows failure
+	// with a cause of its own - makes a sub-process relay its inner traces twice)
+	if rep := RepeatedFlowID(tr); rep != "" {
+		return fail("flow-id-repeat", rep, gs)
 	}
 	// error traces: one per token that found no effective flow at an exclusive /
 	// inclusive gateway (naming the gateway), one per task answer carrying an error
